@@ -40,13 +40,15 @@ func tmpdirBoth(ctx *Ctx, w *Worker, id ident) (tdRes, bool) {
 	parts := strings.SplitN(model, "\t", 2)
 	if len(parts) != 2 {
 		ctx.Res.Disagree(Violation{What: "model gave no temp dir: " + model, Witness: id})
-		return tdRes{}, false
+		return tdRes{real: real, preimage: "?" + id.String()}, real != "" && real != "FAIL" && real != "CRASH"
 	}
 	sum := sha1.Sum([]byte(parts[1]))
 	want := parts[0] + "." + hex.EncodeToString(sum[:])
 	if real != want {
 		ctx.Res.Disagree(Violation{What: fmt.Sprintf("TempDir(): real=%q, model prefix+sha1(preimage)=%q (preimage %q)", real, want, parts[1]), Class: "c14.model", Witness: id})
-		return tdRes{}, false
+		// the pairwise check below still uses the real value (with the model's preimage, which then cannot
+		// explain a collision as the known concatenation ambiguity unless it is equal too)
+		return tdRes{real, parts[0], parts[1]}, true
 	}
 	// segment validity on the real value
 	if strings.Contains(real, "/") || real == "." || real == ".." || len(real) > 255 || len(real) == 0 {
@@ -61,7 +63,7 @@ func checkC14(ctx *Ctx) {
 	defer w.Close()
 	r := NewRng(ctx.Seed)
 	names := []string{"p", "pq", "P.x"}
-	paths := []string{"a", "ab", "a/b", "b", "x/ab", "data/a.txt"}
+	paths := []string{"a", "ab", "a/b", "b", "x/ab", "data/a.txt", "d/d", "e/e", "d/d/f", "e/e/f", "x/d/d/f"}
 	vals := []string{"1", "x", "ab"}
 	ids := []ident{}
 	for _, n := range names {
@@ -103,6 +105,9 @@ func checkC14(ctx *Ctx) {
 		segs := []string{}
 		for i := 0; i <= r.Intn(4); i++ {
 			segs = append(segs, "s"+rs(1+r.Intn(6)))
+			if r.Intn(5) == 0 { // a directory named like its parent
+				segs = append(segs, segs[len(segs)-1])
+			}
 		}
 		p := strings.Join(segs, "/")
 		switch r.Intn(6) {
@@ -183,6 +188,41 @@ func checkC14(ctx *Ctx) {
 			}
 		}
 	}
+	// splitAllPaths itself: every clean path over {a, b, ab} of depth <= 4, relative, absolute and ../-prefixed
+	segAlpha := []string{"a", "b", "ab"}
+	var cleanPaths func(prefix []string, depth int) [][]string
+	cleanPaths = func(prefix []string, depth int) [][]string {
+		out := [][]string{}
+		if len(prefix) > 0 {
+			out = append(out, append([]string{}, prefix...))
+		}
+		if depth == 0 {
+			return out
+		}
+		for _, sg := range segAlpha {
+			out = append(out, cleanPaths(append(append([]string{}, prefix...), sg), depth-1)...)
+		}
+		return out
+	}
+	nsplit := 0
+	for _, segs := range cleanPaths(nil, 4) {
+		for _, pre := range []string{"", "/", "../"} {
+			pth := pre + strings.Join(segs, "/")
+			realS, modelS := w.Ask("splitpaths", pth), ctx.Drv.Ask("splitpaths", pth)
+			nsplit++
+			if realS != modelS {
+				ctx.Res.Disagree(Violation{What: fmt.Sprintf("splitAllPaths(%q): real %q, model %q", pth, strings.ReplaceAll(realS, US, ","), strings.ReplaceAll(modelS, US, ",")), Class: "c14.split", Witness: pth})
+			}
+			want := append([]string{}, segs...)
+			if pre == "../" {
+				want = append([]string{".."}, want...)
+			}
+			if realS != strings.Join(want, US) {
+				ctx.Res.Violate(Violation{What: fmt.Sprintf("splitAllPaths(%q) = %q loses or invents path components (want %q): two inputs differing only there share a temp dir", pth, strings.ReplaceAll(realS, US, ","), strings.Join(want, ",")), Class: "c14.split-drops", Witness: pth})
+			}
+		}
+	}
+	ctx.Res.Extra["split_paths_compared"] = nsplit
 	// stability across runs for a task with a joined in-port (the carrier IP of the sub-stream)
 	joinDirs := []string{}
 	for k := 0; k < 2; k++ {
